@@ -258,3 +258,92 @@ def rename_scenarios(world: SqlWorld, branch):
                     f"rename {name_map} with labels {labels} (visible: {select}): afterwards the visible columns are labelled {got}, documented {want}; "
                     f"selection {q.attrs.get('select') if isinstance(q, Obj) else q}"))  # fmt: skip
     return out
+
+
+def join_scenarios(world: SqlWorld, branch):
+    """the Join branch of the SQL compiler interpreted on stub state, for every `how` and for inputs with / without a WHERE:
+    the join flags, the select list, and what happens to the right input's WHERE (inner: appended to the joined WHERE;
+    left: conjoined into ON - unmatched left rows must survive; full: never folded - the verbs guarantee it is empty).
+    -> list of (rule, description, ok, detail)"""
+    p = world.p
+    out = []
+
+    def pred(tag):
+        o = Obj(world.env["Label"])
+        o.attrs.update({"name": tag, "element": None})
+        return o
+
+    def contains(t, v):
+        if t is v or (isinstance(t, Var) and isinstance(v, Var) and t.name == v.name):
+            return True
+        if isinstance(t, Term):
+            return any(contains(x, v) for x in list(t.args) + list(t.kwargs.values()) + ([t.recv] if t.recv is not None else []))
+        if isinstance(t, (list, tuple)):
+            return any(contains(x, v) for x in t)
+        return False
+
+    for how, (iso, full) in {"inner": (False, False), "left": (True, False), "full": (True, True)}.items():
+        for lw, rw in ((0, 0), (1, 0), (0, 1), (1, 1), (0, 2)):
+            lpred = [pred(f"L{i}") for i in range(lw)]
+            rpred = [pred(f"R{i}") for i in range(rw)]
+            on = pred("ON")
+            right_node = p.new("tree.verbs", "Ungroup", child=None, name="r")
+            rq = world.query(["R.z"], where=list(rpred))
+            r_expr = {"R.z": world.label("z")}
+
+            def compile_ast(node, needed_cols, _r=right_node, _rq=rq, _re=r_expr):
+                if node is not _r:
+                    raise AnalysisError("sqlsim: the Join branch compiles an unexpected node")
+                return (Var("right_table"), _rq, dict(_re))
+
+            def compile_col_expr(expr, sqa_expr, **kw):
+                return Var("c:" + expr.attrs["name"])
+
+            nd = p.new("tree.verbs", "Join", child=None, right=right_node, on=on, how=how, validate="m:m", name="l")
+            local = {
+                "nd": nd, "needed_cols": {}, "sqa": world.sqa_ns(), "table": Var("left_table"),
+                "query": world.query(["L.a"], where=list(lpred)), "sqa_expr": {"L.a": world.label("a")},
+                "cls": _ModuleNS({"compile_ast": Native(compile_ast, "cls.compile_ast"), "compile_col_expr": Native(compile_col_expr, "cls.compile_col_expr")}),
+            }  # fmt: skip
+            desc = f"how={how}, left input with {lw} filter(s), right input with {rw}"
+            try:
+                res = world.run_stmts(branch, local)
+            except PyRaise as e:
+                if how == "full" and (lw or rw) and e.name == "AssertionError":
+                    out.append(("R3", f"{desc}: refused (a WHERE of an input cannot be folded into a full join)", True, ""))
+                else:
+                    out.append(("R3", f"{desc}: compiles", False, f"the SQL Join branch raises {e.name}: {e.msg} for {desc}"))
+                continue
+            if how == "full" and (lw or rw):
+                out.append(("R3", f"{desc}: refused (a WHERE of an input cannot be folded into a full join)", False,
+                            f"{desc}: the SQL compiler folds the filter of an input of a full join into the joined statement instead of refusing it "
+                            "(rows of the other side that only match filtered-out rows must still appear, null-padded)"))  # fmt: skip
+                continue
+            table = res.get("table")
+            joins = [t for t in table.walk() if isinstance(t, Term) and t.fn.split(".")[-1] == "join"] if isinstance(table, Term) else []
+            if len(joins) != 1:
+                out.append(("R2", f"{desc}: one join", False, f"{desc}: the branch builds {len(joins)} join() calls on the running table"))
+                continue
+            j = joins[0]
+            onclause = j.kwargs.get("onclause", j.args[1] if len(j.args) > 1 else None)
+            right_ok = bool(j.args) and isinstance(j.args[0], Var) and j.args[0].name == "right_table"
+            out.append(("R2", f"{desc}: join(right_table, isouter={iso}, full={full})", right_ok and bool(j.kwargs.get("isouter", False)) is iso and bool(j.kwargs.get("full", False)) is full,
+                        f"for how='{how}' the SQL join is built as {str(j)[:160]} (expected right_table, isouter={iso}, full={full})"))  # fmt: skip
+            out.append(("R2", f"{desc}: ON carries the join condition", contains(onclause, Var("c:ON")),
+                        f"for how='{how}' the ON clause is {str(onclause)[:120]}: the compiled join condition is missing"))  # fmt: skip
+            q = res.get("query")
+            where = list(q.attrs.get("where") or []) if isinstance(q, Obj) else None
+            sel = q.attrs.get("select") if isinstance(q, Obj) else None
+            out.append(("R2", f"{desc}: select list = left columns then right columns", sel == ["L.a", "R.z"], f"{desc}: after the join the selection is {sel}, documented ['L.a', 'R.z']"))
+            r_in_where = [any(w_ is r for w_ in (where or [])) for r in rpred]
+            r_in_on = [contains(onclause, Var("c:" + r.attrs["name"])) for r in rpred]
+            l_kept = where is not None and [w_ for w_ in where if any(w_ is l_ for l_ in lpred)] == lpred
+            if how == "inner":
+                ok = all(r_in_where) and not any(r_in_on) and l_kept and len(where) == lw + rw
+                what = "the right input's WHERE is appended to the joined WHERE"
+            else:
+                ok = all(r_in_on) and not any(r_in_where) and l_kept and len(where) == lw
+                what = "the right input's WHERE is conjoined into ON (unmatched left rows must survive), the left one stays in WHERE"
+            out.append(("R3", f"{desc}: {what}", ok,
+                        f"{desc}: the joined WHERE holds {[w_.attrs.get('name') if isinstance(w_, Obj) else w_ for w_ in (where or [])]}, ON is {str(onclause)[:120]}; documented: {what}"))  # fmt: skip
+    return out
